@@ -221,6 +221,45 @@ def load_expectations(ctx):
     return root, merged, stats
 
 
+BASELINE = os.path.join(H.ROOT, "notes", "corpus_open_baseline.json")
+
+
+def corpus_differential(ctx):
+    """Extended coverage, no verdict: the library's reader against the independent decoder on EVERY file of the bundled
+    corpus (the reports of testdata/hdf5_official/ddl describe about a fifth of them).  Recorded in the evidence: how many
+    files each of them opens, the differences by category.  Printed as NOTE lines: files that opened when the baseline
+    (notes/corpus_open_baseline.json) was taken and do not open now - a repair of the reader that makes a valid file
+    unreadable is invisible to C06 itself, which accepts an error wherever a feature is unsupported."""
+    files = []
+    for pat in ("testdata/hdf5_official/*.h5", "testdata/c-library-corpus/**/*.h5", "testdata/reference/*.h5", "testdata/*.h5"):
+        files += glob.glob(os.path.join(ctx.repo, pat), recursive=True)
+    files = sorted(f for f in set(files) if 0 < os.path.getsize(f) < 50_000_000)
+    path = ctx.write_cases([{"file": f} for f in files], "corpusdiff_files.ndjson")
+    trace, out = ctx.drive("corpusdiff", path, trace_name="corpusdiff.ndjson")
+    evs = [json.loads(x) for x in open(trace)]
+    evs = [e for e in evs if e.get("op") == "diff"]
+    rel = lambda f: os.path.relpath(f, os.path.join(ctx.repo, "testdata"))
+    opened = sorted(rel(e["file"]) for e in evs if e.get("libopen") == "ok")
+    cats = collections.Counter()
+    for e in evs:
+        for d in e["diffs"]:
+            k = re.sub(r"^[^:]*: ", "", d)
+            cats[re.sub(r"[\[(].*", "", re.sub(r"\d+", "N", k)).strip()[:60]] += 1
+    if os.environ.get("H5V_WRITE_BASELINE"):
+        with open(BASELINE, "w") as f:
+            json.dump({"opened_by_library": opened}, f, indent=0)
+    lost = []
+    if os.path.exists(BASELINE):
+        base = set(json.load(open(BASELINE))["opened_by_library"])
+        lost = sorted(base - set(opened))
+        for f in lost[:20]:
+            why = next((e["diffs"][0] for e in evs if rel(e["file"]) == f and e["diffs"]), "")
+            H.log("NOTE extended-coverage corpus: %s opened when the baseline was taken and does not open now: %s" % (f, why[:200]))
+    return {"files": len(evs), "opened_by_library": len(opened), "opened_by_decoder": sum(1 for e in evs if e.get("indopen") == "ok"),
+            "files_with_differences": sum(1 for e in evs if e["diffs"]), "difference_categories": dict(cats.most_common(12)),
+            "opened_at_baseline_not_now": lost}
+
+
 def run(ctx):
     ctx.build()
     root, merged, rstats = load_expectations(ctx)
@@ -335,6 +374,7 @@ def run(ctx):
                 H.log("DET %s %s %s" % (b["file"], b["path"], [it["diag"] for it in b["items"]]))
     ts = verdict["stats"]
     cov = {
+        "extended_coverage_corpus_differential": corpus_differential(ctx),
         "evaluations": ts["objects"] + ts["attrs"],
         "distinct_nontrivial": ts["values"],
         "rule": "inputs = every file of testdata/hdf5_official that an unambiguous shipped h5dump report describes (%d files, %d reports used); "
